@@ -11,7 +11,7 @@ PARTIAL = ("proved for every usage, table and text: the binding rule of formals 
            "by an independent reference reading of 22.5.1 on generated define/usage programs, not by a theorem")
 
 NAMES = ["M", "N1", "add", "cat", "str", "W"]
-FORMALS = ["a", "b", "x", "y1", "_z"]
+FORMALS = ["a", "b", "x", "y1", "_z", "type", "input", "bit", "logic", "wire", "begin"]   # reserved words are legal names of formals
 ACTUALS = ["1", "p", "q+1", "(r,s)", "{t,u}", "[3:0]", "\"s,t\"", "f(g,h)", "", " ", "w x", "`K", "8'hff", "\"a\""]
 
 
